@@ -2,6 +2,8 @@
 package document
 
 import (
+	"bytes"
+	"encoding/xml"
 	"fmt"
 	"os"
 	"path/filepath"
@@ -1895,6 +1897,12 @@ func (te *TemplateEngine) replaceVariablesInXMLPart(xmlData []byte, data *Templa
 
 // escapeXMLContent 转义XML特殊字符
 func (te *TemplateEngine) escapeXMLContent(s string) string {
+	// xml.EscapeText also replaces characters XML cannot carry (control
+	// characters, invalid UTF-8) so that the part stays well-formed
+	var buf bytes.Buffer
+	if err := xml.EscapeText(&buf, []byte(s)); err == nil {
+		return buf.String()
+	}
 	s = strings.ReplaceAll(s, "&", "&amp;")
 	s = strings.ReplaceAll(s, "<", "&lt;")
 	s = strings.ReplaceAll(s, ">", "&gt;")
